@@ -96,6 +96,19 @@ class CBloomDriver:
                 self.feats.add("stat")
             ctx.op("stat")
             return
+        if kind == "clear":
+            ctx.call(self.noexc, o.clear)
+            self.true.clear()
+            self.product = False
+            self.count = 0
+            self.seen = {}
+            self.feats.add("clear")
+            ctx.op("clear")
+            if self._o("undo"):
+                fresh = self.K(self.case["est"], self.case["fpr"], hash_function=self.hf)
+                ctx.check(self._o("undo"), bytes(o) == bytes(fresh), "after clear() the exported bytes differ from those of a fresh filter")
+            self.seen[self._mkey()] = bytes(o)
+            return self.verify(f"after {op}")
         if kind == "union":
             # the filter is replaced by its union with a second filter built from generated adds: a PRODUCT, whose element count is
             # the distinct-element estimate while its cells hold the operands' sums
@@ -244,7 +257,7 @@ def case_strategy(tier, max_ops=40):
                        st.tuples(st.just("add"), ki, st.integers(1, 3)),
                        st.tuples(st.just("remove"), ki, st.integers(0, 2000)),
                        st.tuples(st.just("remove"), ki, st.integers(0, 2000)),
-                       st.tuples(st.just("stat")), st.tuples(st.just("swap"), ki, ki),
+                       st.tuples(st.just("stat")), st.tuples(st.just("swap"), ki, ki), st.tuples(st.just("clear")),
                        st.tuples(st.just("union"), st.lists(st.tuples(ki, st.integers(1, 4)), max_size=4).map(lambda l: [list(x) for x in l])),
                        st.tuples(st.just("reload"), st.integers(0, 2)))
         return {"t": "cbloom", "est": est, "fpr": fpr, "hash": draw(gen.hash_name_st()), "pool": draw(gen.pool_st(2, 8)),
